@@ -4825,7 +4825,7 @@ class HaloReadAccess(HaloDepth):
                 pass
             else:  # there is no stencil
                 if (field.discontinuous or call.iterates_over == "dof" or
-                        call.all_updates_are_writes):
+                        call.all_updates_are_shared_writes):
                     # There are only local accesses or the kernel is of the
                     # special form where any iteration is guaranteed to write
                     # the same value to a given shared entity.
